@@ -38,6 +38,10 @@ type Check struct {
 	// WorkerBin, if set, names the binary (next to the driver) that runs the
 	// workers of this check (the instrumented build for C18).
 	WorkerBin string
+	// CrashIsViolation: a worker process that dies (fatal error, out of memory, stack
+	// overflow) is a violation of the property itself (C02); the driver then re-runs the
+	// unit in flight with a per-case journal to name the input.
+	CrashIsViolation bool
 }
 
 var registry = map[string]*Check{}
@@ -111,7 +115,18 @@ type W struct {
 	curSeq    atomic.Int64
 	Unit      int
 	Replaying bool
+	journal   *os.File // per-case journal (crash attribution)
 }
+
+// JournalCase records the case about to run when the worker was started in
+// journal mode (only after a crash of an earlier worker).
+func (w *W) JournalCase(desc func() string) {
+	if w.journal != nil {
+		w.journal.WriteString("C " + desc() + "\n")
+	}
+}
+func (w *W) Journaling() bool      { return w.journal != nil }
+func (w *W) SetJournal(f *os.File) { w.journal = f }
 
 func NewW(prop, tier string, seed int64, deadline time.Time) *W {
 	w := &W{Prop: prop, Tier: tier, Seed: seed, Thorough: tier == "thorough", deadline: deadline}
